@@ -624,8 +624,8 @@ Extra:\n{self.extra_map}
             PSBT_GLOBAL_UNSIGNED_TX, self.tx_obj.serialize_legacy()
         )
         # xpubs
-        for xpub in sorted(self.hd_pubs.keys()):
-            hd_pub = self.hd_pubs[xpub]
+        # ordered by the xpub itself, whatever keys the caller's dictionary uses
+        for hd_pub in sorted(self.hd_pubs.values(), key=lambda h: h.raw_serialize()):
             result += hd_pub.serialize()
         for key in sorted(self.extra_map.keys()):
             result += serialize_key_value(key, self.extra_map[key])
